@@ -167,28 +167,53 @@ def in_domain(ip, con, env):
     constants and objects of given classes)?"""
     from .contracts import Const, Obj, FreshObj
     members = con.variants or [{}]
+    # ghost constants that differ between family members cannot be bound at a call site (which member is it?)
+    for k, sh in members[0].items():
+        if k.startswith("_") and k not in env and not all(
+                isinstance(v.get(k), Const) and isinstance(sh, Const) and v[k].value is sh.value for v in members):
+            return False
     for pn, actual in env.items():
         shapes = [dict(con.params, **v).get(pn) for v in members]
-        if not any(isinstance(sh, (Const, Obj, FreshObj)) for sh in shapes):
-            continue
-        ok = False
-        for sh in shapes:
-            if isinstance(sh, Const):
-                if isinstance(actual, C) and (actual.v is sh.value or (type(actual.v) is type(sh.value) and actual.v == sh.value)):
-                    ok = True
-            elif isinstance(sh, (Obj, FreshObj)):
-                cls = ip.program.resolve(sh.cls) if isinstance(sh.cls, str) else sh.cls
-                if isinstance(actual, SObj) and issubclass(actual.cls, cls):
-                    ok = True
-                if isinstance(actual, Z) and getattr(actual, "cls", None) is not None and issubclass(actual.cls, cls):
-                    ok = True
-            else:
-                ok = True          # an unrestricted shape among the members
-            if ok:
-                break
-        if not ok:
+        if not any(shape_admits(ip, sh, actual) for sh in shapes):
             return False
     return True
+
+
+def shape_admits(ip, sh, actual):
+    """Is the actual argument (as the executor represents it) certainly a value of the shape?  Conservative: `False` only
+    sends the caller to the callee's body."""
+    from . import contracts as CT
+    if sh is None or type(sh).__name__ in ("AnyVal", "Opaque"):
+        return True
+    if isinstance(sh, CT.Const):
+        return isinstance(actual, C) and (actual.v is sh.value or (type(actual.v) is type(sh.value) and actual.v == sh.value))
+    if isinstance(sh, (CT.Obj, CT.FreshObj, CT.ObjVal)):
+        cls = ip.program.resolve(sh.cls) if isinstance(sh.cls, str) else sh.cls
+        if isinstance(actual, SObj):
+            return issubclass(actual.cls, cls)
+        return isinstance(actual, Z) and getattr(actual, "cls", None) is not None and issubclass(actual.cls, cls)
+    if isinstance(actual, SObj):
+        return False                     # every remaining shape is a plain value, not a program object
+    name = type(sh).__name__
+
+    def ctor(t):
+        return t.decl().name() if z3.is_app(t) else ""
+    if name in ("ListVal", "ListOf"):
+        return isinstance(actual, LList) or (isinstance(actual, ZSeq) and actual.kind == "list") or (
+            isinstance(actual, Z) and ctor(actual.t) == "VList") or (isinstance(actual, C) and isinstance(actual.v, list))
+    if name == "DictVal":
+        return isinstance(actual, LDict) or (isinstance(actual, Z) and ctor(actual.t) == "VDict") or (
+            isinstance(actual, C) and isinstance(actual.v, dict))
+    if name == "TupleOf":
+        return isinstance(actual, LTuple) or (isinstance(actual, ZSeq) and actual.kind == "tuple") or (
+            isinstance(actual, Z) and ctor(actual.t) == "VTuple") or (isinstance(actual, C) and isinstance(actual.v, tuple))
+    if name == "Bool":
+        return isinstance(actual, ZBool) or (isinstance(actual, C) and isinstance(actual.v, bool))
+    if name == "Int":
+        return isinstance(actual, ZInt) or (isinstance(actual, C) and type(actual.v) is int)
+    if name == "Str":
+        return (isinstance(actual, Z) and ctor(actual.t) == "VStr") or (isinstance(actual, C) and isinstance(actual.v, str))
+    return True            # shapes defined next to their contracts (family members): not restricted here
 
 
 def _apply(ip, con, env, f, args, kwargs):
